@@ -23,6 +23,8 @@ import (
 	"fmt"
 	"math/rand"
 	"os"
+	"runtime"
+	"runtime/pprof"
 	"sort"
 	"strings"
 )
@@ -127,9 +129,21 @@ func VerifSchedMain(args []string) int {
 	maxRuns := fs.Int("maxruns", 1000, "max runs per scenario (enum)")
 	runs := fs.Int("runs", 100, "runs per scenario (random)")
 	seed := fs.Int64("seed", 1, "seed")
+	fs.BoolVar(&vsCheckGid, "checkgid", false, "identify the calling actor by goroutine id on every hook call (slow)")
+	prof := fs.String("cpuprofile", "", "write a CPU profile")
 	stay := fs.Int("stay", 60, "random walk: percent probability of letting the previous actor continue")
 	if err := fs.Parse(args); err != nil {
 		return 2
+	}
+	if os.Getenv("GOMAXPROCS") == "" {
+		// one P: actor hand-offs become plain goroutine switches (5x faster than futex wake-ups across Ps);
+		// nothing is lost, the scheduler serialises the actors anyway.  Shard over processes for parallelism.
+		runtime.GOMAXPROCS(1)
+	}
+	if *prof != "" {
+		pf, _ := os.Create(*prof)
+		pprof.StartCPUProfile(pf)
+		defer pprof.StopCPUProfile()
 	}
 	w := bufio.NewWriterSize(os.Stdout, 1<<20)
 	if *out != "" {
